@@ -297,3 +297,137 @@ pub proof fn lemma_content_upd<P: Prefix, T>(t: Seq<Node<P, T>>, live: ISet<int>
         }
     }
 }
+
+/// the leaf x (child of p on side s, no children) is unlinked and leaves the live set
+pub proof fn lemma_unlink_leaf<P: Prefix, T>(t: Seq<Node<P, T>>, live: ISet<int>, par: spec_fn(int) -> int, t2: Seq<Node<P, T>>, p: int, s: bool, x: int)
+    requires
+        tloc(t, live, par),
+        live.contains(p), is_child(t, p, s, x),
+        t[x].left.is_none(), t[x].right.is_none(),
+        frame_shape(t, t2, p, x, x), t2.len() == t.len(),
+        kb(t2, p) == kb(t, p),
+        chd(t2, p, s).is_none(), chd(t2, p, !s) == chd(t, p, !s),
+    ensures tloc(t2, live.remove(x), par), x != 0, x != p, live.contains(x)
+{
+    let live2 = live.remove(x);
+    assert(child_ok(t, live, p, s));
+    assert(x != p && x != 0);
+    assert(live.contains(0));
+    assert(same_shape_at(t, t2, 0) || p == 0);
+    assert forall|i: int| #[trigger] live2.contains(i) implies 0 <= i < t2.len() && kb(t2, i).len() <= 255 by {
+        assert(live.contains(i));
+        if i != p { assert(same_shape_at(t, t2, i)); }
+    }
+    assert forall|i: int, b: bool| live2.contains(i) implies #[trigger] child_ok(t2, live2, i, b) by {
+        assert(live.contains(i));
+        assert(child_ok(t, live, i, b));
+        if i == p && b == s {
+        } else {
+            if i != p { assert(same_shape_at(t, t2, i)); }
+            if chd(t, i, b).is_some() {
+                let d = chd(t, i, b).unwrap() as int;
+                assert(live.contains(d));
+                if d != p && d != x { assert(same_shape_at(t, t2, d)); }
+                if d == x {
+                    // x has exactly one parent: the one its key selects
+                    lemma_glob_par(t, live, par);
+                    assert(live.contains(i) && live.contains(p));
+                    if i != p {
+                        // both i and p have x as child: their keys are prefixes of kb(x) => comparable; use (D)
+                        lemma_pre_comparable(kb(t, i), kb(t, p), kb(t, x));
+                        if kb(t, i) =~= kb(t, p) {
+                        } else if spre(kb(t, i), kb(t, p)) {
+                            assert(live.contains(i) && live.contains(p));
+                            assert(desc_ok(t, live, i, p));
+                        } else {
+                            assert(live.contains(p) && live.contains(i));
+                            assert(desc_ok(t, live, p, i));
+                        }
+                    }
+                }
+            }
+        }
+    }
+    assert forall|c: int| live2.contains(c) && c != 0 implies par_ok(t2, live2, c, #[trigger] par(c)) by {
+        let q = par(c);
+        assert(par_ok(t, live, c, q));
+        assert(q != x);
+        if c != p { assert(same_shape_at(t, t2, c)); }
+        if q != p { assert(same_shape_at(t, t2, q)); }
+    }
+}
+
+/// node p (gs-child of g) has exactly one child c (on side cs); c takes p's place under g, p leaves the live set
+pub proof fn lemma_splice_out<P: Prefix, T>(t: Seq<Node<P, T>>, live: ISet<int>, par: spec_fn(int) -> int, t2: Seq<Node<P, T>>, g: int, gs: bool, p: int, cs: bool, c: int)
+    requires
+        tloc(t, live, par),
+        live.contains(g), is_child(t, g, gs, p), is_child(t, p, cs, c), chd(t, p, !cs).is_none(),
+        frame_shape(t, t2, g, p, p), t2.len() == t.len(),
+        kb(t2, g) == kb(t, g),
+        is_child(t2, g, gs, c), chd(t2, g, !gs) == chd(t, g, !gs),
+    ensures tloc(t2, live.remove(p), par_upd1(par, c, g)), p != 0, p != g, live.contains(p), live.contains(c), c != p, c != g
+{
+    let live2 = live.remove(p);
+    let par2 = par_upd1(par, c, g);
+    assert(child_ok(t, live, g, gs));
+    assert(live.contains(p));
+    assert(child_ok(t, live, p, cs));
+    assert(live.contains(c));
+    assert(p != g && p != 0 && c != p && c != g && c != 0);
+    assert(live.contains(0));
+    assert(same_shape_at(t, t2, 0) || g == 0);
+    assert(same_shape_at(t, t2, c));
+    assert forall|i: int| #[trigger] live2.contains(i) implies 0 <= i < t2.len() && kb(t2, i).len() <= 255 by {
+        assert(live.contains(i));
+        if i != g { assert(same_shape_at(t, t2, i)); }
+    }
+    lemma_glob_par(t, live, par);
+    assert forall|i: int, b: bool| live2.contains(i) implies #[trigger] child_ok(t2, live2, i, b) by {
+        assert(live.contains(i));
+        assert(child_ok(t, live, i, b));
+        if i == g && b == gs {
+            lemma_pre_trans(kb(t, g), kb(t, p), kb(t, c));
+        } else {
+            if i != g { assert(same_shape_at(t, t2, i)); }
+            if chd(t, i, b).is_some() {
+                let d = chd(t, i, b).unwrap() as int;
+                assert(live.contains(d));
+                if d != g && d != p { assert(same_shape_at(t, t2, d)); }
+                if d == p {
+                    // p has exactly one parent
+                    assert(live.contains(i) && live.contains(g));
+                    if i != g {
+                        lemma_pre_comparable(kb(t, i), kb(t, g), kb(t, p));
+                        if kb(t, i) =~= kb(t, g) {
+                        } else if spre(kb(t, i), kb(t, g)) {
+                            assert(desc_ok(t, live, i, g));
+                        } else {
+                            assert(live.contains(g) && live.contains(i));
+                            assert(desc_ok(t, live, g, i));
+                        }
+                    }
+                }
+            }
+        }
+    }
+    assert forall|d: int| live2.contains(d) && d != 0 implies par_ok(t2, live2, d, #[trigger] par2(d)) by {
+        if d == c {
+            lemma_pre_trans(kb(t, g), kb(t, p), kb(t, c));
+        } else {
+            let q = par(d);
+            assert(par2(d) == q);
+            assert(par_ok(t, live, d, q));
+            if q == p {
+                // d is a child of p, but p's only child is c
+                assert(false);
+            }
+            if d != g { assert(same_shape_at(t, t2, d)); }
+            if q != g { assert(same_shape_at(t, t2, q)); }
+            if q == g {
+                assert(kb(t, d)[kb(t, g).len() as int] != gs) by {
+                    if kb(t, d)[kb(t, g).len() as int] == gs { assert(d == p); }
+                }
+            }
+        }
+    }
+}
